@@ -474,6 +474,43 @@ Proof.
   - exists y, k. split; [exact Hk|]. eapply gen_panic; eauto.
 Qed.
 
+(* a file that can never be produced in any state the loop can reach makes the loop fail *)
+Lemma loop_blocked w m f0 x k (B : fs -> Prop) :
+  find_coll m x = Some k ->
+  (forall f, Inv w m f0 f -> B f) ->
+  (forall f r f', B f -> gen_file w f k = (r, f') -> r <> FOk) ->
+  forall ord f r f', Inv w m f0 f -> In x ord -> write_loop w m ord f = (r, f') -> r <> FOk.
+Proof.
+  intros Hk HB HG. induction ord as [|y t IH]; intros f r f' I Hin H; simpl in H; [destruct Hin|].
+  destruct Hin as [->|Hin].
+  - rewrite Hk in H. destruct (gen_file w f k) as [r1 f1] eqn:G.
+    pose proof (HG _ _ _ (HB _ I) G) as N.
+    destruct r1; [congruence | injection H as <- _; discriminate | injection H as <- _; discriminate].
+  - destruct (find_coll m y) as [k'|] eqn:Hk'; [|exact (IH _ _ _ I Hin H)].
+    destruct (gen_file w f k') as [r1 f1] eqn:G.
+    pose proof (Inv_step _ _ _ _ _ _ _ _ Hk' I G) as I1.
+    destruct r1; [exact (IH _ _ _ I1 Hin H) | injection H as <- _; discriminate | injection H as <- _; discriminate].
+Qed.
+
+Lemma gen_dir_blocks w f k r f' :
+  f (k_path k) = Some Dir -> gen_file w f k = (r, f') -> r <> FOk.
+Proof.
+  intros Hd G ->. destruct (gen_ok_needs _ _ _ _ G) as (_ & _ & Wr).
+  destruct (gen_step _ _ _ _ _ G (k_path k)) as [[E | (E1 & _)] | (_ & _ & _ & _ & [E | [[c E] _]])]; congruence.
+Qed.
+
+Lemma gen_parent_file_blocks w f k a c r f' :
+  strict_prefix a (k_path k) = true -> a <> [] -> f a = Some (File c) ->
+  gen_file w f k = (r, f') -> r <> FOk.
+Proof.
+  intros P N Hf G. unfold gen_file in G.
+  destruct (tstatus_ok (c_tstatus (p_cfg (k_pkg k)))); simpl in G; [|injection G as <- _; discriminate].
+  destruct (has_files (k_pkg k)); simpl in G; [|injection G as <- _; discriminate].
+  pose proof (mkdir_all_file_blocks (w_ro w) f (parent (k_path k)) a c (strict_prefix_parent _ _ P) N Hf) as B.
+  destruct (mkdir_all (w_ro w) f (parent (k_path k))) as [ok f1]. simpl in B. subst ok. simpl in G.
+  injection G as <- _. discriminate.
+Qed.
+
 (* ================= the run ================= *)
 Definition exit_of (w : world) (r : fres) : exit_class :=
   match r with
@@ -701,6 +738,26 @@ Proof.
     unfold same_group in S1, S2. rewrite !andb_true_iff, !seqb_eq in S1, S2. apply N.
     destruct S1 as [_ <-]. destruct S2 as [_ <-]. reflexivity.
   - (* NoPackages *) congruence.
+  - (* OutputIsDirectory *) destruct HC as (x & g & Hg & Hd).
+    destruct (HV eq_refl) as [W Hord]. unfold file_gov in Hg. rewrite Co in Hg.
+    destruct (find_coll m x) as [k|] eqn:Hk; [|discriminate]. simpl in Hg. injection Hg as Hg.
+    destruct (sound_out _ _ _ _ G Hk) as (_ & _ & _ & q & Hq & Kq & _).
+    destruct (g_sound _ _ G _ _ Hk) as (_ & _ & Pg). rewrite Hg in Pg.
+    assert (Ho : In x ord) by (apply Hord; unfold out_keys; apply in_map_iff; exists (k_pkg k, q); auto).
+    refine (loop_blocked w m (w_fs w) x k (fun f => f (k_path k) = Some Dir) Hk _ _ ord _ _ _ (Inv_refl _ _ _) Ho L eq_refl).
+    + intros f I. rewrite <- Pg.
+      destruct (I (q_path g)) as [J | [(J1 & _) | (x' & k' & _ & _ & _ & _ & [F | [[c F] _]])]]; congruence.
+    + intros f r f'. apply gen_dir_blocks.
+  - (* OutputParentIsFile *) destruct HC as (x & g & a & c & Hg & P & N & Hf).
+    destruct (HV eq_refl) as [W Hord]. unfold file_gov in Hg. rewrite Co in Hg.
+    destruct (find_coll m x) as [k|] eqn:Hk; [|discriminate]. simpl in Hg. injection Hg as Hg.
+    destruct (sound_out _ _ _ _ G Hk) as (_ & _ & _ & q & Hq & Kq & _).
+    destruct (g_sound _ _ G _ _ Hk) as (_ & _ & Pg). rewrite Hg in Pg. rewrite Pg in P.
+    assert (Ho : In x ord) by (apply Hord; unfold out_keys; apply in_map_iff; exists (k_pkg k, q); auto).
+    refine (loop_blocked w m (w_fs w) x k (fun f => exists c', f a = Some (File c')) Hk _ _ ord _ _ _ (Inv_refl _ _ _) Ho L eq_refl).
+    + intros f I.
+      destruct (I a) as [J | [(J1 & _) | (x' & k' & _ & _ & J & _)]]; [rewrite J; eauto | congruence | eauto].
+    + intros f r f' [c' Hc']. eapply gen_parent_file_blocks; eauto.
 Qed.
 
 (* ---------- C10 ---------- *)
